@@ -29,6 +29,8 @@ func init() {
 			c.floor("AXIS", 8)
 			c.runSpawnJoin("SPAWNJOIN", append(c.libPkgs(), c.fixturePkg("w")))
 			c.floor("SPAWNJOIN", 2)
+			c.runConstDiv("CONSTDIV", append(c.libPkgs(), c.fixturePkg("w")))
+			c.floor("CONSTDIV", 0)
 			// pixel vs. model units in the rasteriser (Scale = px/L, LineWidth = px)
 			c.runUnits("UNIT", c.libPkgs()[1:2], c.fileFilter("model2d/rasterize.go"))
 			c.floor("UNIT", 2)
